@@ -73,7 +73,19 @@ func (e *Engine) translate(key string, fn *ssa.Function, dry bool, loopMods map[
 			found := false
 			for i, ax := range e.Spec.Axioms {
 				if e.Spec.AxiomNames[i] == u {
-					g.assert(e.substStrLits(ax))
+					// named axioms may use the specification forms (global, fld, ...): translated in the entry state
+					sx, _, err := core.ParseSexp(ax)
+					if err != nil || sx == nil {
+						g.rejectf("axiom %s does not parse", u)
+						continue
+					}
+					sc := &specCtx{fr: fr, st: entry, old: entry}
+					t := sc.tr(sx)
+					if sc.err != "" {
+						g.rejectf("axiom %s: %s", u, sc.err)
+						continue
+					}
+					g.assert(t)
 					found = true
 				}
 			}
